@@ -159,14 +159,24 @@ class SparselyBin(Factory, Container):
         return out.specialize()
 
 
+    def _representative(self):
+        """What a bin of this container looks like: the value template or, for a container made by ``ed`` or from JSON,
+        the sum of its bins (one bin alone may be a nested sparse container that is still empty and knows nothing)."""
+        if self.value is not None:
+            return self.value
+        rep = None
+        for sub in self.bins.values():
+            rep = sub if rep is None else rep + sub
+        return rep
+
     def _checkContent(self, other):
         """Raise ContainerException unless the bins of ``other`` can be merged with the bins of ``self``.
 
         Bins that exist on both sides are checked when they are added; this covers the bins that exist on one side
         only (or on neither side yet), which would otherwise be merged silently whatever their type.
         """
-        mine = self.value if self.value is not None else next(iter(self.bins.values()), None)
-        theirs = other.value if other.value is not None else next(iter(other.bins.values()), None)
+        mine = self._representative()
+        theirs = other._representative()
         if mine is not None and theirs is not None:
             # one bin of each kind must be mergeable, at any depth (zero() would forget the bins of nested sparse
             # containers that only know their content through those bins)
